@@ -73,7 +73,13 @@ func (i *interpreter) fsPath(v value) string {
 		}
 		return filepath.Clean(p)
 	case symstr:
-		panic(engineError{"symbolic file path reached the file-system model"})
+		// structure ('/' and '.') is decided; other symbolic bytes become
+		// placeholder bytes (distinct symbolic bytes are treated as distinct)
+		q := i.surrogate(p, "/.")
+		if !filepath.IsAbs(q) {
+			q = filepath.Join("/work", q)
+		}
+		return filepath.Clean(q)
 	}
 	panic(engineError{fmt.Sprintf("fsPath: %T", v)})
 }
